@@ -113,7 +113,7 @@ let is_stable cands (ins : M.Fol.pred list) (prog : M.Asp.program) (t : M.Eval.f
              is not a stable model of R + its input facts
    and symmetrically for the backward problems.  Stable models by brute force.
 
-   PUBLIC VOCABULARY (audit A4, finding F17 - repaired by /repo <COMMIT-F17>).  The behaviour of a program is
+   PUBLIC VOCABULARY (audit A4, finding F17 - repaired by /repo 70e6ace).  The behaviour of a program is
    read on its own predicates and ALL public predicates of the user guide: an output predicate that
    does not occur in a program is empty in every external stable model of it.  Until the repair the
    regular op excused exactly that class (an output predicate missing from a program was left out
